@@ -283,9 +283,19 @@ mod text {
     /// char / String contents: strings of 0..=3 scalar values over a pool with ASCII, 2-, 3- and 4-byte characters
     pub fn scalar_text_contents() {
         const POOL: [char; 5] = ['a', '\u{e9}', '\u{20ac}', '\u{1f600}', '`'];
-        let len = nd::below(4) as usize;
+        // short strings: every string of 0..=3 scalar values over the pool; long strings: 17..=26 ASCII bytes with one pool
+        // character in front, behind or after 19 / 20 bytes (multi-byte characters straddling any small byte offset)
         let mut s = String::new();
-        for _ in 0..len { s.push(POOL[nd::below(5) as usize]); }
+        let len;
+        if nd::bool() {
+            len = nd::below(4) as usize;
+            for _ in 0..len { s.push(POOL[nd::below(5) as usize]); }
+        } else {
+            let n = 17 + nd::below(10) as usize;
+            let c = POOL[nd::below(5) as usize];
+            match nd::below(3) { 0 => { s.push(c); for _ in 0..n { s.push('a'); } } 1 => { for _ in 0..n { s.push('a'); } s.push(c); } _ => { for _ in 0..n { s.push('a'); } s.push(c); s.push('z'); s.push(c); } }
+            len = s.chars().count();
+        }
         match deserr::deserialize::<String, J, Msg>(json!(s.clone())) { Ok(t) => { oblige!(t == s, "C05:result_equals_the_input_textually"); } Err(_) => { oblige!(false, "C05:ok_iff_in_domain"); } }
         match deserr::deserialize::<char, J, Msg>(json!(s.clone())) {
             Ok(c) => { oblige!(len == 1 && s.chars().next() == Some(c), "C05:ok_iff_in_domain"); }
